@@ -391,18 +391,26 @@ class WorkerPool:
             self._perform_spawn(reply)
             # we are concurrent with trigger_shutdown and spawn
             with self._running_lock:
-                if self._shuttingdown:
-                    break
-                # Only clear if _try_send_to_primary_thread has not
+                # Only leave or clear if _try_send_to_primary_thread has not
                 # yet set the next self._primary_thread_task reply
-                # after waiting for this one to complete.
+                # after waiting for this one to complete: a task that
+                # spawn() accepted has to run even if we are shutting down.
                 if reply is self._primary_thread_task:
+                    if self._shuttingdown:
+                        break
                     primary_thread_task_ready.clear()
 
     def trigger_shutdown(self) -> None:
         with self._running_lock:
             self._shuttingdown = True
-            if self._primary_thread_task_ready is not None:
+            if (
+                self._primary_thread_task_ready is not None
+                # if the event is set, a task was handed to the primary thread
+                # which it has not picked up or not finished yet: it must
+                # still run (spawn() accepted it) and the primary thread
+                # notices _shuttingdown right afterwards
+                and not self._primary_thread_task_ready.is_set()
+            ):
                 self._primary_thread_task = None
                 self._primary_thread_task_ready.set()
 
